@@ -13,10 +13,19 @@ pub fn show_session(r: &Result<netconf::Session<mt::MemTransport>, netconf::Erro
                 "V1_1" => "1.1",
                 _ => "?",
             };
-            let mut caps: Vec<String> = ctx.server_capabilities().iter().map(|c| c.uri().to_string()).collect();
+            let mut caps: Vec<String> = ctx
+                .server_capabilities()
+                .iter()
+                .map(|c| c.uri().to_string())
+                .collect();
             caps.sort();
             caps.dedup();
-            format!("ok sid={} ver={} caps={}", ctx.session_id(), ver, list(&caps.iter().map(|c| hexs(c)).collect::<Vec<_>>()))
+            format!(
+                "ok sid={} ver={} caps={}",
+                ctx.session_id(),
+                ver,
+                list(&caps.iter().map(|c| hexs(c)).collect::<Vec<_>>())
+            )
         }
     }
 }
@@ -26,7 +35,11 @@ pub async fn establish(hello: &str) -> (String, bool) {
     let (t, peer) = mt::new();
     peer.deliver(hello.to_string());
     let r = tokio::time::timeout(Duration::from_secs(5), netconf::Session::verif_new(t)).await;
-    let adv11 = peer.sent().first().map(|b| String::from_utf8_lossy(b).contains(mt::CAP_BASE11)).unwrap_or(false);
+    let adv11 = peer
+        .sent()
+        .first()
+        .map(|b| String::from_utf8_lossy(b).contains(mt::CAP_BASE11))
+        .unwrap_or(false);
     match r {
         Err(_) => ("timeout".into(), adv11),
         Ok(r) => (show_session(&r), adv11),
@@ -68,7 +81,10 @@ impl HelloCase {
                 c.push_str(&format!("<{p}capability>{b}</{p}capability>"));
             }
             for e in &self.extra {
-                c.push_str(&format!("<{p}capability>{}</{p}capability>", e.replace('&', "&amp;").replace('<', "&lt;")));
+                c.push_str(&format!(
+                    "<{p}capability>{}</{p}capability>",
+                    e.replace('&', "&amp;").replace('<', "&lt;")
+                ));
             }
             c.push_str(&format!("</{p}capabilities>"));
             c
@@ -77,8 +93,16 @@ impl HelloCase {
             None => String::new(),
             Some(v) => {
                 let one = format!("<{p}session-id>{v}</{p}session-id>");
-                let two = self.sid2.as_ref().map(|v| format!("<{p}session-id>{v}</{p}session-id>")).unwrap_or_default();
-                if self.sid_dup { format!("{one}{one}{two}") } else { format!("{one}{two}") }
+                let two = self
+                    .sid2
+                    .as_ref()
+                    .map(|v| format!("<{p}session-id>{v}</{p}session-id>"))
+                    .unwrap_or_default();
+                if self.sid_dup {
+                    format!("{one}{one}{two}")
+                } else {
+                    format!("{one}{two}")
+                }
             }
         };
         if self.comments & 1 != 0 {
@@ -112,24 +136,57 @@ impl HelloCase {
     }
     /// descriptor for the spec op: shape, sid text, server bases, whether all capability URIs are valid
     pub fn descr(&self) -> String {
-        let shape_ok = !self.no_caps && self.sid.is_some() && !self.sid_dup && self.sid2.is_none() && !self.junk;
-        let uris_ok = self.extra.iter().all(|e| iri_string::types::UriStr::new(e).is_ok());
+        let shape_ok = !self.no_caps
+            && self.sid.is_some()
+            && !self.sid_dup
+            && self.sid2.is_none()
+            && !self.junk;
+        let uris_ok = self
+            .extra
+            .iter()
+            .all(|e| iri_string::types::UriStr::new(e).is_ok());
         format!(
             "shape={} uris={} sid={} bases={}",
             if shape_ok { 1 } else { 0 },
             if uris_ok { 1 } else { 0 },
-            self.sid.as_ref().map(|s| format!("s{}", hexs(s))).unwrap_or("n".into()),
-            list(&self.bases.iter().map(|b| if b.ends_with("1.0") { "10" } else { "11" }).collect::<Vec<_>>())
+            self.sid
+                .as_ref()
+                .map(|s| format!("s{}", hexs(s)))
+                .unwrap_or("n".into()),
+            list(
+                &self
+                    .bases
+                    .iter()
+                    .map(|b| if b.ends_with("1.0") { "10" } else { "11" })
+                    .collect::<Vec<_>>()
+            )
         )
     }
 }
 
 pub fn gen(opts: &Opts, rng: &mut Rng) -> Vec<HelloCase> {
-    let base_sets: Vec<Vec<&'static str>> =
-        vec![vec![], vec![mt::CAP_BASE10], vec![mt::CAP_BASE11], vec![mt::CAP_BASE10, mt::CAP_BASE11], vec![mt::CAP_BASE11, mt::CAP_BASE10]];
+    let base_sets: Vec<Vec<&'static str>> = vec![
+        vec![],
+        vec![mt::CAP_BASE10],
+        vec![mt::CAP_BASE11],
+        vec![mt::CAP_BASE10, mt::CAP_BASE11],
+        vec![mt::CAP_BASE11, mt::CAP_BASE10],
+    ];
     let sids: Vec<Option<&str>> = vec![
-        Some("4"), Some("1"), Some("4294967295"), Some("0"), Some("4294967296"), Some("-1"), Some("+5"), Some(" 7 "),
-        Some("7\n"), Some("abc"), Some(""), Some("00012"), Some("99999999999999999999999"), None,
+        Some("4"),
+        Some("1"),
+        Some("4294967295"),
+        Some("0"),
+        Some("4294967296"),
+        Some("-1"),
+        Some("+5"),
+        Some(" 7 "),
+        Some("7\n"),
+        Some("abc"),
+        Some(""),
+        Some("00012"),
+        Some("99999999999999999999999"),
+        None,
     ];
     let extras: Vec<Vec<String>> = vec![
         vec![],
@@ -151,8 +208,18 @@ pub fn gen(opts: &Opts, rng: &mut Rng) -> Vec<HelloCase> {
         for s in &sids {
             for prefix in [false, true] {
                 out.push(HelloCase {
-                    bases: b.clone(), extra: vec![], sid: s.map(|x| x.to_string()), sid_dup: false, sid2: None, prefix,
-                    sid_first: false, comments: 0, decl: false, junk: false, no_caps: false, trailer: true,
+                    bases: b.clone(),
+                    extra: vec![],
+                    sid: s.map(|x| x.to_string()),
+                    sid_dup: false,
+                    sid2: None,
+                    prefix,
+                    sid_first: false,
+                    comments: 0,
+                    decl: false,
+                    junk: false,
+                    no_caps: false,
+                    trailer: true,
                 });
             }
         }
@@ -162,9 +229,24 @@ pub fn gen(opts: &Opts, rng: &mut Rng) -> Vec<HelloCase> {
         for e in &extras {
             for v in 0..8u8 {
                 out.push(HelloCase {
-                    bases: b.clone(), extra: e.clone(), sid: Some("77".into()), sid_dup: v == 5, sid2: None, prefix: v & 1 != 0,
-                    sid_first: v & 2 != 0, comments: if v == 3 { 7 } else if v == 4 { 2 } else { 0 }, decl: v == 6,
-                    junk: v == 7, no_caps: false, trailer: v != 2,
+                    bases: b.clone(),
+                    extra: e.clone(),
+                    sid: Some("77".into()),
+                    sid_dup: v == 5,
+                    sid2: None,
+                    prefix: v & 1 != 0,
+                    sid_first: v & 2 != 0,
+                    comments: if v == 3 {
+                        7
+                    } else if v == 4 {
+                        2
+                    } else {
+                        0
+                    },
+                    decl: v == 6,
+                    junk: v == 7,
+                    no_caps: false,
+                    trailer: v != 2,
                 });
             }
         }
@@ -174,8 +256,18 @@ pub fn gen(opts: &Opts, rng: &mut Rng) -> Vec<HelloCase> {
         for b in sids.iter().flatten() {
             for sid_first in [false, true] {
                 out.push(HelloCase {
-                    bases: vec![mt::CAP_BASE10], extra: vec![], sid: Some(a.to_string()), sid_dup: false, sid2: Some(b.to_string()),
-                    prefix: false, sid_first, comments: 0, decl: false, junk: false, no_caps: false, trailer: true,
+                    bases: vec![mt::CAP_BASE10],
+                    extra: vec![],
+                    sid: Some(a.to_string()),
+                    sid_dup: false,
+                    sid2: Some(b.to_string()),
+                    prefix: false,
+                    sid_first,
+                    comments: 0,
+                    decl: false,
+                    junk: false,
+                    no_caps: false,
+                    trailer: true,
                 });
             }
         }
@@ -187,10 +279,18 @@ pub fn gen(opts: &Opts, rng: &mut Rng) -> Vec<HelloCase> {
             extra: rng.pick(&extras).clone(),
             sid: rng.pick(&sids).map(|x| x.to_string()),
             sid_dup: rng.chance(1, 12),
-            sid2: if rng.chance(1, 10) { rng.pick(&sids).map(|x| x.to_string()) } else { None },
+            sid2: if rng.chance(1, 10) {
+                rng.pick(&sids).map(|x| x.to_string())
+            } else {
+                None
+            },
             prefix: rng.chance(1, 2),
             sid_first: rng.chance(1, 3),
-            comments: if rng.chance(1, 3) { rng.below(8) as u8 } else { 0 },
+            comments: if rng.chance(1, 3) {
+                rng.below(8) as u8
+            } else {
+                0
+            },
             decl: rng.chance(1, 8),
             junk: rng.chance(1, 15),
             no_caps: rng.chance(1, 15),
@@ -203,16 +303,33 @@ pub fn gen(opts: &Opts, rng: &mut Rng) -> Vec<HelloCase> {
 pub fn main(opts: &Opts) {
     let mut rng = Rng::new(opts.seed);
     let mut sink = Sink::new();
-    let cfg = if opts.extra.iter().any(|e| e == "pinned") { "pinned" } else { "fixed" };
+    let cfg = if opts.extra.iter().any(|e| e == "pinned") {
+        "pinned"
+    } else {
+        "fixed"
+    };
     if let Some(p) = &opts.replay {
         // a replayed case is the hex of the hello text; only the correspondence row can be re-derived
         for l in std::fs::read_to_string(p).unwrap().lines() {
             if let Some(d) = l.strip_prefix("case\t") {
-                if let Some(Ok(text)) = unhex(d.split('\t').next().unwrap()).map(String::from_utf8) {
-                    let rt = tokio::runtime::Builder::new_current_thread().enable_all().build().unwrap();
+                if let Some(Ok(text)) = unhex(d.split('\t').next().unwrap()).map(String::from_utf8)
+                {
+                    let rt = tokio::runtime::Builder::new_current_thread()
+                        .enable_all()
+                        .build()
+                        .unwrap();
                     let (out, adv11) = rt.block_on(establish(&text));
                     let spans = xmltok::spans(&text);
-                    sink.corr(&hexs(&text), format!("xml hello {cfg} {} {} {}", if adv11 { 1 } else { 0 }, xmltok::uri_oracle(&spans), xmltok::tokenize(&text)), out.clone());
+                    sink.corr(
+                        &hexs(&text),
+                        format!(
+                            "xml hello {cfg} {} {} {}",
+                            if adv11 { 1 } else { 0 },
+                            xmltok::uri_oracle(&spans),
+                            xmltok::tokenize(&text)
+                        ),
+                        out.clone(),
+                    );
                     sink.sample(format!("{text} -> {out}"));
                 }
             }
@@ -223,16 +340,28 @@ pub fn main(opts: &Opts) {
     let cases = gen(opts, &mut rng);
     let texts: Vec<String> = cases.iter().map(|c| c.xml()).collect();
     // thread-level watchdog: a reader loop that never returns cannot be interrupted from inside
-    let results = run_pool_watchdog_opt(texts.clone(), 16, std::time::Duration::from_secs(20), 8, |text| {
-        let rt = tokio::runtime::Builder::new_current_thread().enable_all().build().unwrap();
-        rt.block_on(establish(&text))
-    });
+    let results = run_pool_watchdog_opt(
+        texts.clone(),
+        16,
+        std::time::Duration::from_secs(20),
+        8,
+        |text| {
+            let rt = tokio::runtime::Builder::new_current_thread()
+                .enable_all()
+                .build()
+                .unwrap();
+            rt.block_on(establish(&text))
+        },
+    );
     for ((c, text), res) in cases.iter().zip(texts.iter()).zip(results) {
         let case = hexs(text);
         let (out, adv11) = match res {
             Ok(x) => x,
             Err(Stuck::Timeout) => {
-                sink.direct(&case, "violation session-establishment-does-not-return".into());
+                sink.direct(
+                    &case,
+                    "violation session-establishment-does-not-return".into(),
+                );
                 continue;
             }
             Err(Stuck::Skipped) => {
@@ -243,13 +372,30 @@ pub fn main(opts: &Opts) {
         let spans = xmltok::spans(text);
         sink.corr(
             &case,
-            format!("xml hello {cfg} {} {} {}", if adv11 { 1 } else { 0 }, xmltok::uri_oracle(&spans), xmltok::tokenize(text)),
+            format!(
+                "xml hello {cfg} {} {} {}",
+                if adv11 { 1 } else { 0 },
+                xmltok::uri_oracle(&spans),
+                xmltok::tokenize(text)
+            ),
             out.clone(),
         );
-        sink.spec(&case, format!("xml spec-hello {} adv11={} {}", c.descr().replace(' ', "|"), if adv11 { 1 } else { 0 }, out.replace(' ', "|")));
+        sink.spec(
+            &case,
+            format!(
+                "xml spec-hello {} adv11={} {}",
+                c.descr().replace(' ', "|"),
+                if adv11 { 1 } else { 0 },
+                out.replace(' ', "|")
+            ),
+        );
         sink.count(&format!("outcome.{}", out.split(' ').next().unwrap()));
         sink.count(&format!("bases.{}", c.bases.len()));
-        sink.count(if adv11 { "client.advertises-1.1" } else { "client.advertises-1.0-only" });
+        sink.count(if adv11 {
+            "client.advertises-1.1"
+        } else {
+            "client.advertises-1.0-only"
+        });
         if sink.samples.len() < 5 {
             sink.sample(format!("{text} -> {out}"));
         }
